@@ -1208,3 +1208,15 @@ Definition roundtrip_ok (c : tcfg) (tab : list (Z * string)) (m : modul) : bool 
    "well-formed and printable", the real print/read round trip (modulo volatile flags) must have succeeded *)
 Definition case_hyp (c : tcfg) (tab : list (Z * string)) (m : modul) (real_ok : bool) : val :=
   VB (implb (wf_modul m && printable c (fr_of tab) (fp_of tab) m) real_ok).
+
+(* mutated texts: a read that leaves a dangling reference (a placeholder nothing defined, or - Python only - a
+   reference to a value of another function, which tools/irimport.py also renders as 'unres') counts as a failed
+   read on both sides; this is where the deviation Internal (OtherI 79) of [define_value] is absorbed *)
+Definition ref_dangling (r : vref) : bool := match r with Unres _ => true | _ => false end.
+Definition modul_dangling (m : modul) : bool :=
+  existsb (fun f => existsb (fun i => existsb ref_dangling (instr_uses i)) (func_instrs f)) (m_funcs m).
+Definition case_read_strict (c : tcfg) (tp : list (Z * string)) (l : list string) : val :=
+  match read_text c (fp_of tp) (unlines l) with
+  | Ok m => if modul_dangling m then VInternal else VOk (toval m)
+  | _ => VInternal
+  end.
